@@ -576,23 +576,36 @@ def gen_run_space(rng: random.Random, keys: list[str], *, allow_source=True, max
             size = 1
         total = total * size if combine == "combinatorial" else size
         block: dict[str, Any] = {"mode": mode, "context": ctx}
-        if allow_source and rng.random() < 0.25 and len(ctx) >= 1:
-            # move one key into a source file (rows-as-runs)
-            k = sorted(ctx)[0]
-            vs = ctx.pop(k)
+        if allow_source and rng.random() < 0.3 and len(ctx) >= 1:
+            # move one or two keys into a source file (rows-as-runs); extra columns are dropped through `select`
+            same_len = len({len(v) for v in ctx.values()}) == 1
+            nmove = 2 if (len(ctx) >= 2 and same_len and rng.random() < 0.6) else 1
+            moved = sorted(ctx)[:nmove]
+            cols = {}
+            for k in moved:
+                cols[k if rng.random() < 0.5 else f"col_{k}"] = (k, ctx.pop(k))
+            n = len(next(iter(cols.values()))[1])
             fmt = rng.choice(["csv", "json"])
             fname = f"src_{bi}.{fmt}"
-            col = k if rng.random() < 0.5 else f"col_{k}"
+            names = list(cols)
+            extra = rng.random() < 0.6
+            all_names = names + (["unused_col"] if extra else [])
+            rows = [{c: (cols[c][1][i] if c in cols else float(i)) for c in all_names} for i in range(n)]
             if fmt == "csv":
-                files[fname] = col + "\n" + "".join(f"{x}\n" for x in vs)
+                files[fname] = ",".join(all_names) + "\n" + "".join(",".join(str(r[c]) for c in all_names) + "\n" for r in rows)
             else:
                 import json as _j
-                files[fname] = _j.dumps([{col: x} for x in vs])
+                files[fname] = _j.dumps(rows)
             src: dict[str, Any] = {"format": fmt, "path": fname}
-            if col != k:
-                src["rename"] = {col: k}
+            if extra or rng.random() < 0.5:
+                sel = list(names)
+                rng.shuffle(sel)
+                src["select"] = sel
+            ren = {c: k for c, (k, _v) in cols.items() if c != k}
+            if ren:
+                src["rename"] = ren
             if mode == "combinatorial":
-                src["mode"] = "combinatorial"
+                src["mode"] = "by_position" if nmove == 2 else "combinatorial"
             block["source"] = src
             if not ctx:
                 block.pop("context")
